@@ -296,11 +296,28 @@ def execute(scn):
                 acc["yaml"] = False
             # 3 attribute assignment on a valid detector
             det = world.build_detector(scn["detector"])
+            prev = getattr(getattr(det, sec), "_" + field)
             try:
                 setattr(getattr(det, sec), field, v)
                 acc["attribute"] = True
             except Exception:  # noqa: BLE001
                 acc["attribute"] = False
+                now = getattr(getattr(det, sec), "_" + field)
+                if now != prev:
+                    # a refused change must not take effect (the detector is reused afterwards)
+                    viol.append({"clause": "C12.limits", "signature": f"C12.refused-value-sticks@{field}+attribute", "detail": {"previous": prev, "refused": v, "now_holds": now}})
+            # the same through a dotted key (what sweeps, calibration and overrides use)
+            from pyxel.pipelines import Processor
+
+            det_k = world.build_detector(scn["detector"])
+            proc_k = Processor(detector=det_k, pipeline=world.build_pipeline(scn["pipeline"]))
+            prev_k = getattr(getattr(det_k, sec), "_" + field)
+            try:
+                proc_k.set(f"detector.{sec}.{field}", v)
+            except Exception:  # noqa: BLE001
+                now_k = getattr(getattr(det_k, sec), "_" + field)
+                if now_k != prev_k:
+                    viol.append({"clause": "C12.limits", "signature": f"C12.refused-value-sticks@{field}+key", "detail": {"previous": prev_k, "refused": v, "now_holds": now_k}})
             # 4 parameter sweep inside an observation: the offending run must not execute any model
             det4 = world.build_detector(scn["detector"])
             pipe4 = world.build_pipeline(scn["pipeline"])
